@@ -7,7 +7,7 @@ variables of the packages this property's code lives in, the functions (other th
 assign to them or call methods on them, and the fields of the property's struct types. The model is
 a pure function of the arguments and of these fields; a new variable, writer or field is state the
 model does not know of. -/
-def stateC19 : List (String × String) := [("globals:graph", ""), ("globals:graphalg", ""), ("globalwrites:graph", ""), ("globalwrites:graphalg", ""), ("fields:graphalg.DomTree", "idom:[]int children:[][]int")]
+def stateC19 : List (String × String) := [("globals:graph", ""), ("globals:graphalg", ""), ("globalwrites:graph", ""), ("globalwrites:graphalg", ""), ("fields:graphalg.DomTree", "idom:[]int children:[][]int"), ("funcs:graph", "n=13 fnv64a=91fcf3f7fdaf1da6"), ("funcs:graphalg", "n=27 fnv64a=e894f2184af9a92e")]
 
 /-- the source has exactly the package-level variables, writers and struct fields the model accounts for -/
 theorem state_C19 : holdsAll stateC19 = true := by decide +kernel
